@@ -1,4 +1,4 @@
-import BppProofs.Lemmas.NumDeriv
+import BppProofs.Lemmas.NumDerivEntry
 /-!
 # C12 — numerical derivatives are transparent and exact on low-degree polynomials
 
@@ -170,5 +170,78 @@ theorem cross_remainder_cubic (x y h1 h2 : ℝ) (hh1 : h1 ≠ 0) (hh2 : h2 ≠ 0
     crossThree ((x - h1) ^ 3 * (y - h2)) ((x - h1) ^ 3 * (y + h2))
                ((x + h1) ^ 3 * (y - h2)) ((x + h1) ^ 3 * (y + h2)) h1 h2 = 3 * x ^ 2 + h1 ^ 2 := by
   rw [crossThree_real]; field_simp; ring
+
+
+/-! ## 2. Transparency
+
+`W.call f w e` is an entry point of the wrapper (`setParameters`, `setAllParametersValues`,
+`setParameterValue`, `setParametersValues`, `matchParametersValues`, `f`) for any of the three
+schemes, any selection of variables, any constraints, any objective `f`, any number of probes and
+constraint hits.  Hypotheses: the wrapped function's own list has no duplicate name and no
+precision (`Own`: with a precision its parameters only follow the requested values up to that
+precision), its cached value is the value at its current point (`Fn.OK`; preserved, see
+`transparent`), and the list that is passed has no duplicate name (`Entry.Nodup`, guaranteed by
+`ParameterList::addParameter`).  `e.apply l` is the requested vector: the values of the passed
+list taken over into `l`, nothing else changed. -/
+
+/-- after an entry point that returns normally, the wrapped function's parameter vector is the
+requested one, the wrapper reports the function's value there and so does the wrapped function;
+the hypotheses hold again for the next call. -/
+theorem transparent (f : List ℝ → ℝ) (w : W ℝ) (e : Entry ℝ) (hown : Own w.fn) (hok : w.fn.OK f) (he : e.Nodup)
+    (hret : (w.call f e).2.1 = none) :
+    (w.call f e).1.fn.params = e.apply w.fn.params ∧
+    (w.call f e).1.value = f (values (e.apply w.fn.params)) ∧
+    (w.call f e).1.fn.fval = f (values (e.apply w.fn.params)) ∧
+    Own (w.call f e).1.fn ∧ (w.call f e).1.fn.OK f := by
+  obtain ⟨h0, h1, h2, h3, h4, _⟩ := call_spec f w e hown hok he hret
+  have hp := forward_params f w.fn e hown he h0
+  rw [hp] at h1
+  refine ⟨h1, by rw [h2, h1], ?_, h4, h3⟩
+  have := h3; unfold Fn.OK at this; rw [this, h1]
+
+/-- the wrapper is transparent as a `Parametrizable`: the wrapped function ends in the state of
+its parameters the same call made directly on it would have produced -/
+theorem transparent_as_direct_call (f : List ℝ → ℝ) (w : W ℝ) (e : Entry ℝ) (hown : Own w.fn) (hok : w.fn.OK f)
+    (he : e.Nodup) (hret : (w.call f e).2.1 = none) :
+    (w.call f e).1.fn.params = (w.fn.forward f e).1.params :=
+  (call_spec f w e hown hok he hret).2.1
+
+/-- a call refused by the wrapped function itself (constraint, unknown name) changes nothing -/
+theorem raise_unchanged (f : List ℝ → ℝ) (w : W ℝ) (e : Entry ℝ) (hown : Own w.fn) (he : e.Nodup)
+    (hraise : (w.fn.forward f e).2.1 ≠ none) :
+    (w.call f e).1 = w ∧ (w.call f e).2.1 = (w.fn.forward f e).2.1 := by
+  have h := forward_raise f w.fn e hown he hraise
+  unfold W.call
+  rcases hfw : w.fn.forward f e with ⟨fn1, x, b⟩
+  rw [hfw] at h hraise
+  cases x with
+  | none => simp at hraise
+  | some x => simp only [] at h ⊢; subst h; exact ⟨rfl, trivial⟩
+
+/-- the requested vector, spelled out: a name of the passed list gets the passed value … -/
+theorem requested_values (own pl : PList ℝ) (hpl : (names pl).Nodup) :
+    ∀ q ∈ pl, ∀ b ∈ updL pl own, b.name = q.name → b.value = q.value :=
+  synced_updL pl own hpl
+
+/-- … and the other parameters keep theirs -/
+theorem requested_frame (own pl : PList ℝ) :
+    List.Forall₂ (fun b p => b.name = p.name ∧ b.prec = p.prec ∧ b.con = p.con ∧ (p.name ∉ names pl → b.value = p.value))
+      (updL pl own) own := by
+  have := dev_updL (B := own) (S := fun _ => False) (S' := fun n => n ∈ names pl) pl (Dev.refl own _) (by
+    intro b _ hn
+    cases hf : find? pl b.name with
+    | none => exact fun h => h
+    | some q =>
+      have := find?_some hf
+      exact absurd (this.2 ▸ List.mem_map_of_mem this.1) hn)
+  exact this.imp (fun a b h => ⟨h.1.1, h.1.2.1, h.1.2.2, h.2⟩)
+
+/-- the hypotheses of `transparent` are satisfiable -/
+example : ∃ (w : W ℝ) (f : List ℝ → ℝ) (e : Entry ℝ), Own w.fn ∧ w.fn.OK f ∧ e.Nodup :=
+  ⟨{ scheme := .three, h := 1 / 16, vars := [0], der1 := [some 0], der2 := [some 0], cross := [[some 0]],
+     c1 := true, c2 := true, cx := false, f1 := 0, f2 := 0, f3 := 0,
+     fn := { params := [⟨0, 0, 0, none⟩], fval := 0, log := [], kind := 0, en1 := false, en2 := false, pt1 := [], pt2 := [] } },
+   fun l => l.sum, .setParameters [⟨0, 1, 0, none⟩],
+   ⟨by simp [names], by intro p hp; simp at hp; subst hp; rfl⟩, by simp [Fn.OK, values], by simp [Entry.Nodup, names]⟩
 
 end Bpp.C12
